@@ -119,10 +119,10 @@ impl Peers {
     pub uninterp spec fn s_interval(&self) -> u64;     // check_point_interval (protocol constant)
     #[verifier::external_body]
     pub fn get_cached_block_filter_hashes(&self) -> (r: (u32, Vec<Byte32>))
-        // cached hashes were verified against two consecutive finalized check points when they were stored
-        ensures r.0 < u32::MAX,
-                r.1@.len() <= self.s_interval(),      // local invariant: the cache never grows past the next check point
-                forall|i: int| 0 <= i < r.1@.len() ==> authentic_hash(self.s_interval() as int * r.0 as int + 1 + i, (#[trigger] r.1@[i])@) { unimplemented!() }
+        // The cached hashes of the interval ( check point r.0 , check point r.0 + 1 ] come from ONE peer's BlockFilterHashes
+        // messages.  Map invariant (every update goes through the gate below): the cache never grows past the next check
+        // point, and a COMPLETE interval ends with the finalized next check point.  Nothing is known about the other entries.
+        ensures r.0 < u32::MAX, cache_inv(self.s_interval(), r.0, r.1@) { unimplemented!() }
     #[verifier::external_body]
     pub fn get_latest_block_filter_hashes(&self, finalized_check_point_index: u32) -> (r: Vec<Byte32>)
         // agreed on by the required number of proven peers: the real function is under contract in unit quorum (postcondition
@@ -134,9 +134,19 @@ impl Peers {
     pub fn add_matched_blocks(&self, matched_blocks: &mut MBGuard, block_hashes: Vec<(Byte32, bool)>) { unimplemented!() }
     #[verifier::external_body]
     pub fn update_min_filtered_block_number(&self, n: u64) { unimplemented!() }
+    // GATE (C06): the cache is only replaced by a vector that keeps the invariant above for the cached check point index
     #[verifier::external_body]
-    pub fn update_cached_block_filter_hashes(&self, hashes: Vec<Byte32>) { unimplemented!() }
+    pub fn update_cached_block_filter_hashes(&self, hashes: Vec<Byte32>) requires cache_update_ok(hashes@) { unimplemented!() }
 }
+pub open spec fn cache_inv(interval: u64, idx: u32, hashes: Seq<Byte32>) -> bool {
+    hashes.len() <= interval && (hashes.len() == interval && interval >= 1 ==> cp_authentic(idx as int + 1, hashes[hashes.len() - 1]@))
+}
+pub uninterp spec fn cache_update_ok(hashes: Seq<Byte32>) -> bool;
+#[verifier::external_body]
+pub proof fn def_cache_update(interval: u64, idx: u32, hashes: Seq<Byte32>)
+    requires cache_inv(interval, idx, hashes)
+    ensures cache_update_ok(hashes)
+{}
 // ===== end =====
 impl Peers {
     // real body: self.check_point_interval * BlockNumber::from(index)  (interval is the constant 2000: no overflow for u32 indices)
